@@ -42,6 +42,40 @@ pub broadcast proof fn axiom_strid_key_model()
     ensures #[trigger] vstd::std_specs::hash::obeys_key_model::<StrId>(),
 { admit(); }
 
+// ---- sanity of the assumed std contract: it gives `or_insert_with(|| v)` exactly the behaviour vstd specifies for `or_insert(v)`, plus laziness ----
+spec fn or_insert_model(pre: Map<u64, u64>, post: Map<u64, u64>, k: u64, v: u64, r: u64) -> bool {
+    post =~= (if pre.contains_key(k) { pre } else { pre.insert(k, v) }) && r == post[k] && (pre.contains_key(k) ==> r == pre[k])
+}
+/// vstd's own `Entry::or_insert`
+fn vp_std_or_insert(m: &mut HashMap<u64, u64>, k: u64, v: u64) -> (r: u64)
+    ensures or_insert_model(old(m)@, final(m)@, k, v, r),
+{
+    let x = m.entry(k).or_insert(v);
+    *x
+}
+/// the assumed `Entry::or_insert_with` meets the same model
+fn vp_std_or_insert_with(m: &mut HashMap<u64, u64>, k: u64, v: u64) -> (r: u64)
+    ensures or_insert_model(old(m)@, final(m)@, k, v, r),
+{
+    let x = m.entry(k).or_insert_with(|| -> (o: u64) ensures o == v { v });
+    *x
+}
+/// ... writes through the returned slot reach the map ...
+fn vp_std_or_insert_with_write(m: &mut HashMap<u64, u64>, k: u64)
+    ensures final(m)@ =~= old(m)@.insert(k, 7),
+{
+    let x = m.entry(k).or_insert_with(|| -> (o: u64) ensures o == 3 { 3 });
+    *x = 7;
+}
+/// ... and it is lazy: on an occupied entry a closure that must never run (`requires false`) is accepted and the map is unchanged
+fn vp_std_or_insert_with_lazy(m: &mut HashMap<u64, u64>, k: u64) -> (r: u64)
+    requires old(m)@.contains_key(k),
+    ensures final(m)@ =~= old(m)@, r == old(m)@[k],
+{
+    let x = m.entry(k).or_insert_with(|| -> (o: u64) requires false { 0 });
+    *x
+}
+
 // ---- abstract view ---------------------------------------------------------------------------------------------------------
 /// one handle's slot: (generator state, seed currently applied to it)
 pub type Slot = (Pcg64, u64);
